@@ -85,9 +85,100 @@ def signature(cfg, kind):
     return f"C13:{kind}:requests-differ-for-the-same-seed:{ph}:{'+'.join(cfg['modes'])}"
 
 
+def reported_failures(evs):
+    out = []
+    for e in evs:
+        if type(e).__name__ == "ScenarioFinished":
+            for nodes in e.recorder.checks.values():
+                for n in nodes:
+                    if n.failure_info is not None:
+                        out.append((e.recorder.label, n.failure_info.failure.title))
+    return sorted(set(out))
+
+
+def forced_drain(chk):
+    """"…and report the same failures": the same seed and configuration, one worker, a deterministic API that answers
+    /op1 with 500 — once under the ordinary schedule and once under a forced one (engine_common.race_probe: the worker
+    runs to completion exactly between the consumer's timed-out `get` and its liveness test).  The requests are sent in
+    both runs; the failures reported must be the same."""
+    from schemathesis.engine.phases import PhaseName
+    app = E.make_app(lambda p, n: 500 if p == "/op1" else 200)
+    runs = {}
+    with E.Server(app) as srv:
+        for how in ("ordinary", "forced"):
+            schema = E.load_schema(srv.url, 2)
+            cfg = E.engine_config(phases=[PhaseName.FUZZING], workers=1, max_examples=2, seed=11)
+            evs = (E.run_engine if how == "ordinary" else E.race_probe)(schema, cfg)
+            runs[how] = reported_failures(evs)
+    chk.case("schedule:double-run", key=["FUZZING", 11], nontrivial=bool(runs["ordinary"]),
+             sample={"ordinary": runs["ordinary"], "forced": runs["forced"]})
+    chk.feature(f"schedule:failures-reported={bool(runs['ordinary'])}")
+    if not runs["ordinary"]:
+        raise InfraError("forced_drain: the ordinary run reported no failure for an operation that answers 500")
+    if runs["ordinary"] != runs["forced"]:
+        chk.violation("C13:schedule:failures-reported-differ-for-the-same-seed:FUZZING",
+                      f"same seed, same configuration, one worker: the ordinary run reports {runs['ordinary']}, the run in which "
+                      f"the worker finishes between the consumer's timed-out get and its liveness test reports {runs['forced']}",
+                      {"kind": "forced-drain", "ordinary": runs["ordinary"], "forced": runs["forced"]})
+
+
+HEADER_RAW = {"openapi": "3.0.2", "info": {"title": "t", "version": "1"}, "paths": {
+    "/h": {"get": {"parameters": [{"name": "X-H", "in": "header", "required": True, "schema": {"type": "string"}},
+                                  {"name": "q", "in": "query", "schema": {"type": "string", "format": "date"}}],
+                   "responses": {"200": {"description": "ok"}}}}}}
+
+
+def other_configuration_between(chk):
+    """Within one process: run B (default generation settings), then a run A with OTHER settings (a custom header
+    strategy / allow_x00 off / another codec), then B again with the same seed and the same configuration object.  What B
+    sends must not depend on A having run in between."""
+    import hypothesis.strategies as st
+    from flask import Flask, jsonify, request
+    from schemathesis.engine.phases import PhaseName
+    from schemathesis.generation import GenerationConfig, GenerationMode
+    try:
+        from schemathesis.generation import HeaderConfig
+    except ImportError:
+        HeaderConfig = None
+
+    def one(generation, seed):
+        log = []
+        app = Flask("c13-h")
+
+        @app.route("/<path:p>", methods=["GET"])
+        def any_(p):
+            log.append([request.method, request.full_path.rstrip("?"), request.headers.get("X-H")])
+            return jsonify({}), 200
+        with E.Server(app) as srv:
+            ec = E.engine_config(phases=[PhaseName.FUZZING], workers=1, max_examples=5, seed=seed)
+            ec.execution.generation = generation
+            E.run_engine(E.load_schema(srv.url, raw=HEADER_RAW), ec)
+        return log
+
+    others = [("allow_x00-off", lambda: GenerationConfig(modes=[GenerationMode.POSITIVE], allow_x00=False)),
+              ("codec-ascii", lambda: GenerationConfig(modes=[GenerationMode.POSITIVE], codec="ascii"))]
+    if HeaderConfig is not None:
+        others.insert(0, ("header-strategy", lambda: GenerationConfig(
+            modes=[GenerationMode.POSITIVE], headers=HeaderConfig(strategy=st.sampled_from(["alpha", "beta"])))))
+    for name, mk in others:
+        b_cfg = GenerationConfig(modes=[GenerationMode.POSITIVE])
+        b1 = one(b_cfg, 21)
+        a = one(mk(), 21)
+        b2 = one(b_cfg, 21)
+        chk.case("in-process:other-configuration-between", key=[name], nontrivial=bool(b1),
+                 sample={"between": name, "requests": len(b1), "first": b1[:2], "other_first": a[:1]})
+        chk.feature(f"in-process:between={name}")
+        if b1 != b2:
+            chk.violation("C13:in-process:requests-differ-for-the-same-seed-after-a-run-with-other-generation-settings:FUZZING",
+                          f"the same seed and configuration sent other requests after a run with {name} in the same process",
+                          {"kind": "other-configuration-between", "between": name, "first_difference": first_diff(b1, b2)})
+
+
 def run(chk):
     # the state shared by worker threads first: forced interleavings on the real schema object (harness/c13_shared.py)
     c13_shared.run_shared(chk)
+    forced_drain(chk)
+    other_configuration_between(chk)
     rng = chk.rng
     ss, derand = sites()
     classes = Counter(c for *_, c in ss)
